@@ -57,6 +57,7 @@ def same_code(desc_a, build_b, flag_combos, names=('X1', 'X2'), ctxs=(False, Tru
             a = substitute_stubs(expr_of(desc_a), dict(zip(names, sa)))
             b = build_b(*sb)
             ta, tb = emitted(a, ctx), emitted(b, ctx)
-            if ta != tb:
+            import ast as _ast
+            if _ast.dump(_ast.parse(ta)) != _ast.dump(_ast.parse(tb)):      # identical up to comments
                 return False, {'flags': fl, 'ctx': ctx, 'a': ta, 'b': tb}
     return True, None
